@@ -16,6 +16,10 @@ class M1(State):
     v: int = 0
 
 
+class M1s(M1):                 # a metric type derived from another one: each is its own metric ("a scope's value for a metric type")
+    pass
+
+
 class M2(State):
     items: tuple[int, ...] = ()
 
@@ -35,7 +39,7 @@ def m_replace(a, b):
 def m_sum(a, b):
     if isinstance(a, M3):
         return M3(v=a.v + b.v, ok=a.ok and b.ok)
-    return M1(v=a.v + b.v) if isinstance(a, M1) else M2(items=a.items + b.items)
+    return type(a)(v=a.v + b.v) if isinstance(a, M1) else M2(items=a.items + b.items)
 
 
 def m_first(a, b):
@@ -55,7 +59,7 @@ def run_program(rng):
     counter = [0]
 
     def record(sid):
-        metric = rng.choice([lambda: M1(v=rng.randint(1, 9)), lambda: M2(items=(rng.randint(1, 9),)),
+        metric = rng.choice([lambda: M1(v=rng.randint(1, 9)), lambda: M1s(v=rng.randint(10, 19)), lambda: M2(items=(rng.randint(1, 9),)),
                              lambda: M3(v=rng.randint(1, 9), ok=rng.random() < 0.5)])()
         merge = rng.choice(MERGES)
         cur = model[sid].get(type(metric))
@@ -71,10 +75,15 @@ def run_program(rng):
 
     def check(sid, where):
         m = MetricsContext._context.get()
-        for T in (M1, M2, M3):
+        for T in (M1, M1s, M2, M3):
             got, want = m.read(T), model[sid].get(T)
-            if got != want:
-                problems.append(f"{where}: scope s{sid} holds {got} for {T.__name__}, left fold of its records gives {want}")
+            if got != want or (got is not None and type(got) is not T):
+                problems.append(f"{where}: scope s{sid} holds {got!r} for {T.__name__}, left fold of its records of that type gives {want!r}")
+            fallback = T()
+            got_d = m.read(T, default=fallback)
+            if (want is None and got_d is not fallback) or (want is not None and got_d != want):
+                problems.append(f"{where}: scope s{sid} read({T.__name__}, default=...) gives {got_d!r}, expected "
+                                f"{'the default' if want is None else want!r}")
 
     children = {}
 
@@ -101,7 +110,7 @@ def run_program(rng):
         except Exception as e:  # noqa
             problems.append(f"{where}: merged view of s{sid} raised {e!r}")
             return
-        for T in (M1, M2, M3):
+        for T in (M1, M1s, M2, M3):
             want = expected_merged(sid, T)
             if got.get(T) != want:
                 problems.append(f"{where}: merged view of s{sid} gives {got.get(T)} for {T.__name__}, folding its records and "
